@@ -883,8 +883,12 @@ def prepare(p, layout, rng, dims):
         ops['S'] = S
         return ops, lambda: [sle.als(S, b, a, repeats=1), sle.mals(S, b, a, repeats=1)]
     if p == 'explicit_euler':
+        # a caller-supplied higher-order-differencing operator, built as the untruncated sum 2hA + (2/3!) h^3 A^3 (ranks not minimal)
+        ops['op_hod'] = 0.2 * A + (2.0 / 6.0) * 1e-3 * (A @ A @ A)
+
         def f():
             out = list(ode.explicit_euler(A, a, [0.1, 0.1], normalize=0, progress=False)[1:])
+            out += list(ode.hod(A, a, 0.1, 2, order=4, op_hod=ops['op_hod'], previous_value=b, normalize=0, progress=False)[1:])
             out += list(ode.implicit_euler(A, a, b, [0.1], normalize=0, progress=False)[1:])
             out += list(ode.trapezoidal_rule(A, a, b, [0.1], normalize=2, progress=False)[1:])
             out += list(ode.hod(A, a, 0.1, 1, order=2, previous_value=b, normalize=0, progress=False)[1:])
